@@ -76,6 +76,7 @@ structure BatchFacts where
   writeByIndex : Bool
   waitsAll : Bool
   planErrAborts : Bool
+  plansAllBeforeExecuting : Bool
 deriving DecidableEq, Repr
 
 inductive SwitchSubject | name | alias
